@@ -16,7 +16,7 @@ the current source WITHOUT these hypotheses. A reverted fix flips a fact and bre
   * `rxLitPrefix → PrefixSound`— regexp literal prefix used as trie-iterator prefix for unanchored regexps,
   * `lutCumulative ∨ ≤ 131072 series` — forward reader's non-cumulative lookup table.
 -/
-import LinVerif.Lemmas.C10Group
+import LinVerif.Lemmas.C10Park
 import LinVerif.Generated.C10
 
 set_option linter.unusedSimpArgs false
@@ -327,6 +327,94 @@ theorem groupby_state_invariance_now (ops1 ops2 : List Op) (hw : writesOf ops1 =
     (∀ s v1 v2, (s, v1) ∈ gs1 → (s, v2) ∈ gs2 → v1.map (·.2) = v2.map (·.2)) :=
   groupby_state_invariance flagsNow ops1 ops2 hw hv (Or.inl flagsNow_repaired.2.2.2) m keys sel hsel h1 h2
 
+/-! ## Reader ‖ flusher: a query parked between "take the file snapshot" and "read the memory tables" -/
+
+/-- the read order of the current source -/
+def readOrderNow : ReadOrder :=
+  { dictScanMemFirst := Generated.C10.dictScanMemFirst
+    invMemFirst := Generated.C10.invMemFirst
+    fwdMemFirst := Generated.C10.fwdMemFirst }
+
+/-- **later_reader_sees_flush.** A query whose read at `pt` is split over two instants — first half on
+a reachable state `s1`, then ANY placement steps run to completion (PrepareFlush, a whole Flush, its
+inner steps, compactions, of either database), second half afterwards — still selects exactly the
+series written before it started whose tags satisfy the condition, PROVIDED that read path reads its
+memory tables before it takes the file snapshot (`memFirstAt`). For the equals / in path
+(`getOrCreateValue`) this is unconditional; for the like / regexp scans, the postings and the forward
+index it is the regenerated fact `Generated.C10.*MemFirst`. -/
+theorem later_reader_sees_flush (F : Flags) (M : Matcher) (ro : ReadOrder) (pt : ParkPoint)
+    (hro : ro.memFirstAt pt = true) (ops : List Op) (hv : ValidOps ops)
+    (hb : F.lutCumulative = true ∨ numWrites ops ≤ 131072) (steps : List Step)
+    (m : Metric) (c : Expr) (hshape : c.shaped = true) (hnc : NoCollision F c)
+    (hpre : F.rxLitPrefix = true → M.PrefixSound) {S : List SeriesId}
+    (h : query F M (parkedState ro pt (run F ops State.init) (run F (placeOps steps) (run F ops State.init))) m c = .ok S) :
+    ∀ s, s ∈ S ↔ ∃ t, (m, s, t) ∈ (run F ops State.init).written ∧ c.eval M t = true := by
+  have hr := run_reach ops (reach_init F) hv (by simpa using hb)
+  obtain ⟨hwf, hcore⟩ := parked_wf hr steps ro pt hro
+  have hw := (core_eq_iff.mp hcore).2.2.2
+  intro s
+  rw [filter_eq_eval F M _ hwf m c hshape hnc hpre h s, hw]
+
+/-- the equals / in path of the current source, whatever the other read orders are -/
+theorem later_reader_sees_flush_find_now (M : Matcher) (ops : List Op) (hv : ValidOps ops) (steps : List Step)
+    (m : Metric) (c : Expr) (hshape : c.shaped = true) {S : List SeriesId}
+    (h : query flagsNow M (parkedState readOrderNow .dictFind (run flagsNow ops State.init)
+          (run flagsNow (placeOps steps) (run flagsNow ops State.init))) m c = .ok S) :
+    ∀ s, s ∈ S ↔ ∃ t, (m, s, t) ∈ (run flagsNow ops State.init).written ∧ c.eval M t = true :=
+  later_reader_sees_flush flagsNow M readOrderNow .dictFind rfl ops hv (Or.inl flagsNow_repaired.2.2.2) steps m c hshape
+    (noCollision_now c) (prefix_now M) h
+
+/-! ## The matcher parameters and the meaning of `not` -/
+
+/-- **like dispatch against the abstract matcher.** Whatever the split of the dictionary into memory
+tables and files: the value ids `FindValuesByLike` returns for bucket `kid` — through the
+prefix / suffix / contains / exact dispatch on the pattern's leading and trailing `*`, the trie's
+prefix iterator on files and the plain scans on memory tables — are exactly the ids of the
+dictionary values `v` with `LikeMatch p v` (`v = pre ++ core ++ suf`, `pre` empty unless the pattern
+starts with `*`, `suf` empty unless it ends with `*`). It fails only for the bare `*` while unguarded. -/
+theorem like_dispatch_matches (F : Flags) (d : Dict) (hf : DictFun d.all) (kid : KeyId) (p : Bytes) :
+    (∀ ids, findValuesByLike F d kid p = .ok ids → ∀ id, id ∈ ids ↔ ∃ v, LikeMatch p v ∧ (kid, v, id) ∈ d.all) ∧
+    ((F.likeStarGuarded = true ∨ p ≠ [star]) → ∃ ids, findValuesByLike F d kid p = .ok ids) := by
+  refine ⟨?_, findValuesByLike_ok⟩
+  intro ids h id
+  rw [findValuesByLike_spec hf h id]
+  constructor
+  · rintro ⟨v, hv, hm⟩; exact ⟨v, (likeRef_iff p v).mp hv, hm⟩
+  · rintro ⟨v, hv, hm⟩; exact ⟨v, (likeRef_iff p v).mpr hv, hm⟩
+
+/-- the regexp filter against the abstract matcher `M`: ids of exactly the dictionary values that
+`M.isMatch`es, provided the iterator prefix is sound for `M` (or not used: current source) -/
+theorem regexp_dispatch_matches (F : Flags) (M : Matcher) (d : Dict) (kid : KeyId) (p : Bytes)
+    (hpre : F.rxLitPrefix = true → M.PrefixSound) (id : ValId) :
+    id ∈ findValuesByRegexp F M d kid p ↔ ∃ v, M.isMatch p v = true ∧ (kid, v, id) ∈ d.all :=
+  findValuesByRegexp_spec hpre id
+
+/-- **not_excludes_series_without_key** (the property text does not fix this; DESIGN §7 C10 does):
+`not e` around an atomic filter on key `k` (`!=`, `<>`, `not like`, `not in`, `!~`) selects exactly the
+written series that HAVE `k` and do not satisfy `e`; in particular a series without `k` is never
+selected by `not e` (nor by `e`). -/
+theorem not_excludes_series_without_key (F : Flags) (M : Matcher) (st : State) (hwf : WF st) (m : Metric) (e : Expr)
+    (k : Bytes) (hk : e.notKey = some k) (hshape : e.shaped = true) (hnc : NoCollision F (.not e))
+    (hpre : F.rxLitPrefix = true → M.PrefixSound) {S : List SeriesId} (h : query F M st m (.not e) = .ok S) :
+    (∀ s, s ∈ S ↔ ∃ t, (m, s, t) ∈ st.written ∧ (∃ v, (k, v) ∈ t) ∧ e.eval M t = false) ∧
+    (∀ s t, (m, s, t) ∈ st.written → (∀ v, (k, v) ∉ t) → s ∉ S) := by
+  have hsh : (Expr.not e).shaped = true := by simp [Expr.shaped, hk, hshape]
+  have hspec := filter_eq_eval F M st hwf m (.not e) hsh hnc hpre h
+  have key : ∀ t : Tags, (Expr.not e).eval M t = true ↔ (∃ v, (k, v) ∈ t) ∧ e.eval M t = false := by
+    intro t
+    simp only [Expr.eval, hk, Bool.and_eq_true, any_key_iff, Bool.not_eq_true']
+  constructor
+  · intro s
+    rw [hspec s]
+    constructor
+    · rintro ⟨t, hw, he⟩; exact ⟨t, hw, (key t).mp he⟩
+    · rintro ⟨t, hw, he⟩; exact ⟨t, hw, (key t).mpr he⟩
+  · intro s t hw hno hs
+    obtain ⟨t', hw', he⟩ := (hspec s).mp hs
+    rw [hwf.writtenFun _ _ _ _ hw' hw] at he
+    obtain ⟨⟨v, hv⟩, _⟩ := (key t).mp he
+    exact hno v hv
+
 /-! ## The index flush seen from inside -/
 
 /-- the one-step flush of the index stores is the composition of its steps (nobody looking) -/
@@ -437,6 +525,30 @@ theorem tie_flush_order :
       ["forwardIndex.flush", "forwardIndex.prepareFlush", "indexKVStore.Flush", "indexKVStore.PrepareFlush",
        "invertedIndex.flush", "invertedIndex.prepareFlush"] := by decide
 
+/-- per read path the order of "file snapshot" and "memory tables" (with the yield point in
+between): snapshot first (flag false: a reader parked there across a flush loses the batch) or
+memory first (flag true, fixes/C10-read-memory-before-snapshot.patch) -/
+theorem tie_read_order :
+    ((Generated.C10.dictScanOrder = ["FindValuesByRegexp: snapshot yield memory memory",
+        "findValuesByLike: snapshot yield memory memory"] ∧ Generated.C10.dictScanMemFirst = false) ∨
+     (Generated.C10.dictScanOrder = ["FindValuesByRegexp: memory memory snapshot yield",
+        "findValuesByLike: memory memory snapshot yield"] ∧ Generated.C10.dictScanMemFirst = true)) ∧
+    ((Generated.C10.invOrder = ["findSeriesIDsByKeys: snapshot yield memory"] ∧ Generated.C10.invMemFirst = false) ∨
+     (Generated.C10.invOrder = ["findSeriesIDsByKeys: memory snapshot yield"] ∧ Generated.C10.invMemFirst = true)) ∧
+    ((Generated.C10.fwdOrder = ["findSeriesIDsForTag: snapshot yield memory"] ∧ Generated.C10.fwdMemFirst = false) ∨
+     (Generated.C10.fwdOrder = ["findSeriesIDsForTag: memory snapshot yield"] ∧ Generated.C10.fwdMemFirst = true)) := by
+  decide
+
+/-- `scanGroupingTags`: for every group-by key (outer loop) EVERY scanner of that key (inner loop) is
+read; the only `continue` skips a scanner without the container; no `break`/`return`, no counter or
+other bookkeeping that lives across keys — what `valuesFor` / `valueIdOf` model (per key, all
+scanners of the key, last hit wins) -/
+theorem tie_scan_grouping :
+    Generated.C10.scanGroupingShape =
+      ["0:seriesIDHighKey :=", "0:range g.tagKeys", "1:scanners :=", "1:range scanners",
+       "2:lowSeriesIDs,tagValueIDs :=", "2:if lowSeriesIDs == nil", "3:continue",
+       "2:call ctx.IterateLowSeriesIDs", "3:func-literal", "4:call fn"] := by decide
+
 /-! ## Non-vacuity -/
 
 /-- Go's behaviour on literal patterns with an optional `^`: `^x` matches values starting with `x`
@@ -509,6 +621,24 @@ example :
     query flagsNow anchoredMatcher (run flagsNow (insideFlushOps ++ [.place .invFail]) State.init) mCpu
       (.not (.atom (.eq kZone [50]))) = .ok [2, 0] ∧
     (run flagsNow (insideFlushOps ++ [.place .invCommit]) State.init).inv.phase = .committed := by decide
+
+/-- group by SEVERAL keys with the series spread over every kind of store: series 0,1 in the
+level-1 file (flushed twice + compacted), 2 in a level-0 file, 3 in the immutable tables, 4 in the
+mutable tables; series 4 lacks `zone` and is dropped, every other series gets exactly its two values -/
+def spreadOps : List Op :=
+  [.write mCpu [(kHost, [97]), (kZone, [49])], .place .prepareIndex, .place .flushIndex,
+   .write mCpu [(kHost, [98]), (kZone, [50])], .place .prepareIndex, .place .flushIndex, .place .compactIndex,
+   .write mCpu [(kHost, [99]), (kZone, [49])], .place .prepareIndex, .place .flushIndex,
+   .write mCpu [(kHost, [97]), (kZone, [50])], .place .prepareIndex,
+   .write mCpu [(kHost, [100])]]
+
+example :
+    groupBy flagsNow (run flagsNow spreadOps State.init) mCpu [kZone, kHost] [0, 1, 2, 3, 4] =
+      .ok [(0, [(1, some [49]), (0, some [97])]), (1, [(3, some [50]), (2, some [98])]),
+           (2, [(1, some [49]), (4, some [99])]), (3, [(3, some [50]), (0, some [97])])] ∧
+    (run flagsNow spreadOps State.init).fwd.l1.length = 1 ∧ (run flagsNow spreadOps State.init).fwd.l0.length = 1 ∧
+    (run flagsNow spreadOps State.init).fwd.imm.isSome = true ∧ (run flagsNow spreadOps State.init).fwd.mtb ≠ [] := by
+  decide
 
 /-! ## Witnesses of the repaired defects (flags of the source before the fix commits; each is still
 replayed on the implementation on every run and must now PASS there) and of a wrong flush order -/
@@ -615,6 +745,22 @@ theorem detach_before_commit_loses_postings :
     query flags0 anchoredMatcher
       (run flags0 [.write mCpu [(kHost, [97])], .place .prepareIndex, .place .invWrite] State.init) mCpu
       (.atom (.eq kHost [97])) = .ok [0] ∧
+    (Expr.atom (.eq kHost [97])).eval anchoredMatcher [(kHost, [97])] = true := by decide
+
+/-- **parked-reader-misses-flushed-batch.** Read order "file snapshot first, memory tables later"
+(`invMemFirst = false`): a query parked after it took the inverted family's snapshot while a
+PrepareFlush + Flush of the index runs finds the batch neither in the old snapshot nor in the (now
+cleared) immutable table: `host = 'a'` selects nothing although series 0 was written before the
+query started. Reading the memory tables first finds it (in the table and again in the new file). -/
+theorem snapshot_first_reader_misses_flushed_batch :
+    let s1 := run flags0 [.write mCpu [(kHost, [97])]] State.init
+    let s2 := run flags0 (placeOps [.prepareIndex, .flushIndex]) s1
+    query flags0 anchoredMatcher
+      (parkedState { dictScanMemFirst := false, invMemFirst := false, fwdMemFirst := false } .inverted s1 s2) mCpu
+      (.atom (.eq kHost [97])) = .ok [] ∧
+    query flags0 anchoredMatcher
+      (parkedState { dictScanMemFirst := true, invMemFirst := true, fwdMemFirst := true } .inverted s1 s2) mCpu
+      (.atom (.eq kHost [97])) = .ok [0, 0] ∧
     (Expr.atom (.eq kHost [97])).eval anchoredMatcher [(kHost, [97])] = true := by decide
 
 end Neg
